@@ -1,6 +1,6 @@
 // Command genoverlay writes a `go build -overlay` file that (1) adds the virtual package
 // github.com/attestantio/dirk/util/verifsync to /repo and (2) replaces every non-test file of
-// services/locker/syncmap and services/process/standard that imports "sync" by a copy whose import is redirected to the shim.
+// services/locker/syncmap, services/process/standard and services/fetcher/mem that imports "sync" by a copy whose import is redirected to the shim.
 // It is regenerated from the current working tree on every check, so edits to the locker flow through.
 package main
 
@@ -20,7 +20,7 @@ import (
 
 func main() {
 	repo, shimSrc, outDir := os.Args[1], os.Args[2], os.Args[3]
-	pkgs := []string{"services/locker/syncmap", "services/process/standard"}
+	pkgs := []string{"services/locker/syncmap", "services/process/standard", "services/fetcher/mem"}
 	replace := map[string]string{}
 	replace[filepath.Join(repo, "util/verifsync/sync.go")] = shimSrc
 	if err := os.MkdirAll(outDir, 0o755); err != nil {
